@@ -2,7 +2,7 @@
 
 use crate::{
     builtins::core::{PlainDateTime, PlainTime, ZonedDateTime},
-    iso::{IsoDateTime, IsoTime},
+    iso::{IsoDateTime, IsoTime, MAX_EPOCH_DAYS},
     options::{
         ArithmeticOverflow, RelativeTo, ResolvedRoundingOptions, RoundingIncrement,
         RoundingOptions, ToStringRoundingOptions, Unit,
@@ -10,7 +10,7 @@ use crate::{
     parsers::{FormattableDateDuration, FormattableDuration, FormattableTimeDuration, Precision},
     primitive::FiniteF64,
     provider::TimeZoneProvider,
-    temporal_assert, Sign, TemporalError, TemporalResult,
+    temporal_assert, Sign, TemporalError, TemporalResult, NS_PER_DAY,
 };
 use alloc::format;
 use alloc::string::String;
@@ -100,6 +100,15 @@ impl core::fmt::Display for Duration {
 //   - Getters/Setters
 //   - Methods (private/public/feature)
 //
+
+/// The day carry of `AddTime` is 32 bits wide: a time duration longer than the whole representable
+/// range always leaves it, and is rejected before the carry can wrap.
+fn check_day_carry(norm: &NormalizedTimeDuration) -> TemporalResult<()> {
+    if norm.0.abs() > i128::from(NS_PER_DAY) * 2 * i128::from(MAX_EPOCH_DAYS) {
+        return Err(TemporalError::range().with_message("Duration not within a valid range."));
+    }
+    Ok(())
+}
 
 #[cfg(test)]
 impl Duration {
@@ -618,6 +627,7 @@ impl Duration {
             // 39. Else if plainRelativeTo is not undefined, then
             Some(RelativeTo::PlainDate(plain_date)) => {
                 // a. Let targetTime be AddTime(0, 0, 0, 0, 0, 0, norm).
+                check_day_carry(&norm)?;
                 let (balanced_days, time) = PlainTime::default().add_normalized_time_duration(norm);
                 // b. Let dateDuration be ? CreateTemporalDuration(duration.[[Years]], duration.[[Months]], duration.[[Weeks]],
                 // duration.[[Days]] + targetTime.[[Days]], 0, 0, 0, 0, 0, 0).
@@ -727,8 +737,9 @@ impl Duration {
             Some(RelativeTo::PlainDate(plain_date)) => {
                 // a. Let internalDuration be ToInternalDurationRecordWith24HourDays(duration).
                 // b. Let targetTime be AddTime(MidnightTimeRecord(), internalDuration.[[Time]]).
-                let (balanced_days, time) =
-                    PlainTime::default().add_normalized_time_duration(self.time.to_normalized());
+                let norm = self.time.to_normalized();
+                check_day_carry(&norm)?;
+                let (balanced_days, time) = PlainTime::default().add_normalized_time_duration(norm);
                 // c. Let calendar be plainRelativeTo.[[Calendar]].
                 // d. Let dateDuration be ! AdjustDateDurationRecord(internalDuration.[[Date]], targetTime.[[Days]]).
                 let date_duration = DateDuration::new(
